@@ -193,6 +193,19 @@ def requests():
     add("sph+cyl/pd", model="sphere+cylinder", q=Q3, pars=dict(mix, A_radius_pd=0.1, A_radius_pd_n=10, B_length_pd=0.2,
                                                               B_length_pd_n=8))
     add("sph+cyl/2d", model="sphere+cylinder", q=QXY, pars=dict(mix, B_theta=50.0, B_phi=15.0))
+    add("sph+cyl/pd-A6", model="sphere+cylinder", q=Q3, pars=dict(mix, A_radius_pd=0.1, A_radius_pd_n=6, B_length_pd=0.2,
+                                                                 B_length_pd_n=8))
+    add("sph+cyl/pd-B5", model="sphere+cylinder", q=Q3, pars=dict(mix, A_radius_pd=0.1, A_radius_pd_n=10, B_length_pd=0.2,
+                                                                 B_length_pd_n=5))
+    sw = {"radius": 40.0, "sld": 1.0, "sld_solvent": 6.0, "scale": 1.0, "background": 0.0, "volfraction": 0.2,
+          "welldepth": 1.2, "wellwidth": 1.3, "radius_effective": 45.0, "radius_effective_pd": 0.2,
+          "radius_effective_pd_n": 8, "structure_factor_mode": 0}
+    add("sph@sw/pd-mode1", model="sphere@squarewell", q=Q3, pars=dict(sw, radius_effective_mode=1))
+    add("sph@sw/pd-mode0", model="sphere@squarewell", q=Q3, pars=dict(sw, radius_effective_mode=0))
+    add("sph@sw/mono-mode0", model="sphere@squarewell", q=Q3, pars=dict(sw, radius_effective_mode=0, radius_effective_pd_n=0))
+    add("sph@sw/pd-mode1-beta", model="sphere@squarewell", q=Q3, pars=dict(sw, radius_effective_mode=1,
+                                                                         structure_factor_mode=1, radius_pd=0.1,
+                                                                         radius_pd_n=6))
     prod = {"scale": 1.0, "background": 0.0, "A_radius": 30.0, "A_sld": 1.0, "A_sld_solvent": 6.0, "B_intercept": 2.0,
             "B_slope": 3.0}
     add("sph*line/mono", model="sphere*line", q=Q3, pars=prod)
@@ -391,7 +404,10 @@ def gen_history(rng, reqs, h):
     ops += [["eval", "cylinder/pd165"], ["eval", "cylinder/pd9"], ["eval", "cylinder/mono3"],
             ["eval", "sphere/pd35"], ["eval", "sphere/empty"], ["eval", "sphere/onepoint"], ["eval", "sphere/mono3"],
             ["eval", "cplug/pd"], ["eval", "cplug/empty"], ["eval", "cplug/mono"], ["eval", "cplug/empty2"],
-            ["clone_perturb", "cylinder/sasview-pd"], ["clone_perturb", "sphere/sasview"]]
+            ["clone_perturb", "cylinder/sasview-pd"], ["clone_perturb", "sphere/sasview"],
+            ["eval", "sph@sw/pd-mode1"], ["eval", "sph@sw/pd-mode0"], ["eval", "sph@sw/pd-mode1-beta"],
+            ["eval", "sph@sw/pd-mode0"], ["eval", "sph+cyl/pd"], ["eval", "sph+cyl/pd-A6"], ["eval", "sph+cyl/pd-B5"],
+            ["eval", "sph+cyl/pd"], ["eval", "sph+cyl/mono"]]
     if h % 2:
         ops += [["eval", "cylinder/2djit"], ["eval", "cylinder/mag2d"], ["eval", "cylinder/2d"],
                 ["release_kernel", "cylinder"], ["eval", "cylinder/2d"]]
